@@ -47,7 +47,7 @@ from harness import mc_util as mu
 from harness import pandora_util as pu
 from harness.props import c02
 
-GEN = ["gen_constants", "gen_refine_consts", "gen_valconst"]
+GEN = ["gen_constants", "gen_refine_consts", "gen_valconst", "gen_callbacks"]
 EXTRACT_FILES = ["X02"]
 DRIVERS = ["x02"]
 RULE = ("one family = one image pair 5..12 x 7..16 (integer radiometry, masks with valid/nodata/invalid cells on "
@@ -659,7 +659,9 @@ def run(ctx):
     quick = ctx.tier == "quick"
     ctx.gen_obligations = ["C09_pipeline_constants: the invalid-bits / stopped-interpolation / interval-regularized "
                            "constants of Gen.RefineConsts, Gen.Constants, Gen.ValConst are those the composed step models "
-                           "use, 1 <= median_block, 1 <= bilateral_block (reflexivity / vm_compute on the regenerated files)"]
+                           "use, 1 <= median_block, 1 <= bilateral_block (reflexivity / vm_compute on the regenerated files)",
+                           "C09_callbacks_as_composed: Gen.Callbacks.gen_callback of filter_run / refinement_run / validation_run "
+                           "(ast of state_machine.py) is the call structure run_step composes (reflexivity)"]
     rng = ctx.rng
     model = core.Model("x02")
     if ctx.replay_case is not None:
